@@ -344,6 +344,7 @@ package tree
 //@   call (*tree.EdgeIndex).Value@L3 [compared_branches_are_looked_up_in_the_reference_index] a0 == refIndex && a1 == compEdge
 //@   call (*tree.EdgeIndex).Value@L4 [reference_branches_are_looked_up_in_the_index_of_the_compared_tree] a0 == compIndex && a1 == refEdge
 //@   call (*tree.EdgeIndex).PutEdgeValue [the_compared_tree_is_indexed_in_its_own_fresh_index_with_its_lengths] a0 == compIndex && a1 == e && a3 == e.length && fresh(compIndex)
+//@   call (*tree.EdgeIndex).PutEdgeValue@L2^1 [the_index_of_a_compared_tree_is_made_for_that_tree_alone_it_holds_no_branch_of_an_earlier_tree] freshiter(compIndex)
 //@   send stats [error_of_the_input_tree_reaches_the_caller] treeV.Err != nil ==> msg.Err != nil
 //@   send stats [record_carries_the_tree_identifier] msg.Id == treeV.Id
 //@   send stats [identical_implies_no_specific_branch] msg.Err == nil && msg.Sametree ==> len(msg.Tree1) == 0 && len(msg.Tree2) == 0
